@@ -31,7 +31,10 @@ def handle (op : String) (j : Json) : Except String Json := do
                                          ("required", jStrs [])])
   | "c02.origins" =>
     let ns ← (← arrField j "nodes").toList.mapM C01.nodeOfJson
-    pure (jList (fun row => jList (fun (kv : String × Origin) => Json.arr #[Json.str kv.1, originJson kv.2]) row) (origins ns))
+    let dtype := (strField j "dtype").toOption.getD "NoDataType"
+    let passes := (strField j "passes").toOption.getD "two"
+    let rows := if passes == "one" then origins ns else origins2 ns dtype
+    pure (jList (fun row => jList (fun (kv : String × Origin) => Json.arr #[Json.str kv.1, originJson kv.2]) row) rows)
   | _ => throw s!"c02: unknown op {op}"
 
 end SemantivaModel.Driver.C02
